@@ -2,7 +2,7 @@
    retries.  Statements only; proofs in Mw/ProxyProofs.v.  Each balancer operation is one atomic
    step (mutex); byte-faithful relaying is httputil.ReverseProxy's (see DESIGN: partial). *)
 From Coq Require Import List Arith Bool.
-From Echo Require Import Mw.Proxy Mw.ProxyProofs.
+From Echo Require Import Mw.Proxy Mw.ProxyProofs Mw.ProxyFair.
 Import ListNotations.
 
 (* whatever the history left in the balancer, the index Next returns is within the current list
@@ -53,6 +53,12 @@ Theorem C19_cyclic : forall T k s n, length (targets T s) = n -> 2 <= n -> idx T
   firsts T s k = map (fun j => (idx T s + j) mod n) (seq 0 k).
 Proof. exact firsts_cyclic. Qed.
 Print Assumptions C19_cyclic.
+
+(* fairness: after ANY number k of first attempts over a fixed list, per-target counts differ by at most one *)
+Theorem C19_fair : forall T (s : st T) n k p q, length (targets T s) = n -> 2 <= n -> idx T s <= n -> p < n -> q < n ->
+  count_occ Nat.eq_dec (firsts T s k) p <= count_occ Nat.eq_dec (firsts T s k) q + 1.
+Proof. exact round_robin_fair. Qed.
+Print Assumptions C19_fair.
 
 (* retries: at most RetryCount+1 attempts, each at a current target; a relayed response comes
    from exactly one (alive) target after only failed attempts; 502 only if every attempt failed *)
